@@ -552,7 +552,7 @@ theorem dvrLoop_cont : ∀ (m w acc : Nat) (pre suffix l : List Nat),
 theorem rev_decode (v : Nat) (hv : v < 2 ^ 56) (pre : List Nat)
     (hpre : ∀ x, pre.getLast? = some x → x < 128) :
     decodeVarintRev (Buf.ofList (pre ++ Spec.putVarint v)) (pre.length + (Spec.putVarint v).length) 9
-      = .ok (.value v pre.length) := by
+      = .ok (v, pre.length) := by
   obtain ⟨hl8, hlt, _⟩ := varintLen_lt_pow v hv
   have hpos := varintLen_pos v
   obtain ⟨m, hm⟩ : ∃ m, Spec.varintLen v = m + 1 := ⟨Spec.varintLen v - 1, by omega⟩
